@@ -22,13 +22,13 @@ theorem gsWidth_pos {gs : List G} (h : 0 < gsWidth gs) : ∃ g ∈ gs, 0 < g.w :
       obtain ⟨g', hm, hp⟩ := ih this
       exact ⟨g', List.mem_cons_of_mem _ hm, hp⟩
 
-theorem fits_step {cfg : Cfg} {sym lw : Nat} {st st' : St} (hf : Fits cfg lw st.stack)
-    (h : StepRel cfg sym lw st st') : Fits cfg lw st'.stack := by
+theorem fits_step {fx : Fixes} {cfg : Cfg} {sym lw : Nat} {st st' : St} (hf : Fits cfg lw st.stack)
+    (h : StepRel fx cfg sym lw st st') : Fits cfg lw st'.stack := by
   cases h with
   | push style gs rest hs hl hfit =>
     intro sec hsec; exact hf sec (by rw [hs]; exact List.mem_cons_of_mem _ hsec)
   | nl style gs rest hs hl heq hnl => intro sec hsec; cases hsec
-  | split0 style gs rest hs hl hge hnf hw => rw [← hs]; exact hf
+  | split0 style gs rest hs hl hge hnf hw hns => rw [← hs]; exact hf
   | splitk style gs rest hs hl hge hnf hw =>
     intro sec hsec g hg
     simp at hsec
@@ -38,9 +38,35 @@ theorem fits_step {cfg : Cfg} {sym lw : Nat} {st st' : St} (hf : Fits cfg lw st.
       exact hf (style, gs) (by rw [hs]; simp) g (takeFit_snd_subset _ _ g hg)
     | inr h2 => exact hf sec (by rw [hs]; exact List.mem_cons_of_mem _ h2) g hg
 
-/-- With `Fits`, every iteration decreases the measure. -/
-theorem mu_step_fits {cfg : Cfg} {sym lw : Nat} {st st' : St} (hf : Fits cfg lw st.stack)
-    (h : StepRel cfg sym lw st st') : mu st' < mu st := by
+/-- Under `Fits` the forced minimum of `forceProgress` changes nothing. -/
+theorem widthLeftF_fits {fx : Fixes} {cfg : Cfg} {lw len : Nat} {gs : List G}
+    (hf : ∀ g ∈ gs, g.w + cfg.leftSym.w ≤ lw) (hlen : len < lw) (hge : lw ≤ len + gsWidth gs) :
+    widthLeftF fx cfg lw len gs = (gsWidth gs - (len + gsWidth gs - lw)) - cfg.leftSym.w := by
+  unfold widthLeftF
+  split
+  · rename_i h
+    obtain ⟨_, h0⟩ := h
+    subst h0
+    obtain ⟨g, hg, hgp⟩ := gsWidth_pos (gs := gs) (by omega)
+    have h1 := hf g hg
+    cases gs with
+    | nil => simp at hg
+    | cons g0 gs =>
+      have h2 := hf g0 (by simp)
+      simp only [firstW]
+      omega
+  · rfl
+
+theorem widthLeftF_ge_first {fx : Fixes} {cfg : Cfg} {lw : Nat} {gs : List G}
+    (hf : fx.forceProgress = true) : firstW gs ≤ widthLeftF fx cfg lw 0 gs ∧ 1 ≤ widthLeftF fx cfg lw 0 gs := by
+  unfold widthLeftF
+  simp [hf]
+  omega
+
+/-- With `Fits`, or with the progress repair, every iteration decreases the measure. -/
+theorem mu_step_fits {fx : Fixes} {cfg : Cfg} {sym lw : Nat} {st st' : St}
+    (hf : fx.forceProgress = true ∨ Fits cfg lw st.stack)
+    (h : StepRel fx cfg sym lw st st') : mu st' < mu st := by
   cases h with
   | push style gs rest hs hl hfit =>
     simp only [mu, hs, clusterCount, List.length_cons]
@@ -48,21 +74,28 @@ theorem mu_step_fits {cfg : Cfg} {sym lw : Nat} {st st' : St} (hf : Fits cfg lw 
   | nl style gs rest hs hl heq hnl =>
     simp only [mu, hs, clusterCount, List.length_cons, List.length_nil]
     split <;> split <;> omega
-  | split0 style gs rest hs hl hge hnf hw =>
+  | split0 style gs rest hs hl hge hnf hw hns =>
     have h2 := lw_ge_two_of_not_limit hl
     have hpos : 0 < st.len := by
       apply Nat.pos_of_ne_zero
       intro h0
       rw [h0] at hge hw
-      obtain ⟨g, hg, hgp⟩ := gsWidth_pos (gs := gs) (by omega)
-      have := hf (style, gs) (by rw [hs]; simp) g hg
-      omega
+      cases hf with
+      | inl hforce =>
+        have := (widthLeftF_ge_first (cfg := cfg) (lw := lw) (gs := gs) hforce).2
+        omega
+      | inr hf =>
+        have hfs := hf (style, gs) (by rw [hs]; simp)
+        rw [widthLeftF_fits hfs (by omega) (by omega)] at hw
+        obtain ⟨g, hg, hgp⟩ := gsWidth_pos (gs := gs) (by omega)
+        have := hfs g hg
+        omega
     simp only [mu, hs, clusterCount, List.length_cons]
     simp [hpos]
   | splitk style gs rest hs hl hge hnf hw =>
     have h2 := lw_ge_two_of_not_limit hl
     by_cases hpos : 0 < st.len
-    · have := takeFit_snd_length_le ((gsWidth gs - (st.len + gsWidth gs - lw)) - cfg.leftSym.w) gs
+    · have := takeFit_snd_length_le (widthLeftF fx cfg lw st.len gs) gs
       simp only [mu, hs, clusterCount, List.length_cons]
       simp [hpos]
       omega
@@ -71,16 +104,22 @@ theorem mu_step_fits {cfg : Cfg} {sym lw : Nat} {st st' : St} (hf : Fits cfg lw 
       cases gs with
       | nil => simp [gsWidth] at hge; omega
       | cons g gs =>
-        have hg := hf (style, g :: gs) (by rw [hs]; simp) g (by simp)
-        have := takeFit_progress ((gsWidth (g :: gs) - (st.len + gsWidth (g :: gs) - lw)) - cfg.leftSym.w) g gs
-          (by rw [h0]; omega)
-        simp only [mu, hs, clusterCount, List.length_cons, h0, Nat.zero_add] at this ⊢
+        have hfirst : g.w ≤ widthLeftF fx cfg lw 0 (g :: gs) := by
+          cases hf with
+          | inl hforce => exact (widthLeftF_ge_first (gs := g :: gs) hforce).1
+          | inr hf =>
+            have hfs := hf (style, g :: gs) (by rw [hs]; simp)
+            rw [widthLeftF_fits hfs (by omega) (by omega)]
+            have := hfs g (by simp)
+            omega
+        have := takeFit_progress (widthLeftF fx cfg lw 0 (g :: gs)) g gs hfirst
+        simp only [mu, hs, clusterCount, List.length_cons, h0] at this ⊢
         simp
         omega
 
 /-- Without any hypothesis the measure never increases, and splits add a row. -/
-theorem mu_step_limited {cfg : Cfg} {sym lw : Nat} {st st' : St}
-    (h : StepRel cfg sym lw st st') (hpos : 0 < effMax cfg lw) :
+theorem mu_step_limited {fx : Fixes} {cfg : Cfg} {sym lw : Nat} {st st' : St}
+    (h : StepRel fx cfg sym lw st st') (hpos : 0 < effMax cfg lw) :
     mu st' + (effMax cfg lw - st'.result.length) < mu st + (effMax cfg lw - st.result.length) := by
   cases h with
   | push style gs rest hs hl hfit =>
@@ -89,20 +128,20 @@ theorem mu_step_limited {cfg : Cfg} {sym lw : Nat} {st st' : St}
   | nl style gs rest hs hl heq hnl =>
     simp only [mu, hs, clusterCount, List.length_cons, List.length_nil]
     split <;> split <;> omega
-  | split0 style gs rest hs hl hge hnf hw =>
+  | split0 style gs rest hs hl hge hnf hw hns =>
     have := not_limit_lt hl hpos
     simp only [mu, hs, clusterCount, List.length_cons, List.length_append, List.length_nil]
     split <;> simp <;> omega
   | splitk style gs rest hs hl hge hnf hw =>
     have := not_limit_lt hl hpos
-    have := takeFit_snd_length_le ((gsWidth gs - (st.len + gsWidth gs - lw)) - cfg.leftSym.w) gs
+    have := takeFit_snd_length_le (widthLeftF fx cfg lw st.len gs) gs
     simp only [mu, hs, clusterCount, List.length_cons, List.length_append, List.length_nil]
     split <;> simp <;> omega
 
 /-- A decreasing measure bounds the fuel the loop needs. -/
-theorem loop_some_of_measure {cfg : Cfg} {sym lw : Nat} (m : St → Nat) (P : St → Prop)
-    (hP : ∀ st st', P st → StepRel cfg sym lw st st' → P st' ∧ m st' < m st) :
-    ∀ (fuel : Nat) (st : St), P st → m st < fuel → ∃ r, loop cfg sym lw fuel st = some r := by
+theorem loop_some_of_measure {fx : Fixes} {cfg : Cfg} {sym lw : Nat} (m : St → Nat) (P : St → Prop)
+    (hP : ∀ st st', P st → StepRel fx cfg sym lw st st' → P st' ∧ m st' < m st) :
+    ∀ (fuel : Nat) (st : St), P st → m st < fuel → ∃ r, loop fx cfg sym lw fuel st = some r := by
   intro fuel
   induction fuel with
   | zero => intro st _ h; omega
@@ -120,9 +159,9 @@ theorem mu_init_lt_fuel (cfg : Cfg) (lw : Nat) (line : List Sec) :
   simp [mu, initSt, fuelFor, secCount]
 
 /-- The loop terminates within the model's fuel when a line limit is in force. -/
-theorem loop_terminates_limited (cfg : Cfg) (sym lw : Nat) (line : List Sec)
+theorem loop_terminates_limited (fx : Fixes) (cfg : Cfg) (sym lw : Nat) (line : List Sec)
     (hpos : 0 < effMax cfg lw) :
-    ∃ r, loop cfg sym lw (fuelFor cfg lw line) (initSt line) = some r := by
+    ∃ r, loop fx cfg sym lw (fuelFor cfg lw line) (initSt line) = some r := by
   apply loop_some_of_measure (fun st => mu st + (effMax cfg lw - st.result.length)) (fun _ => True)
   · intro st st' _ h
     exact ⟨trivial, mu_step_limited h hpos⟩
@@ -133,13 +172,24 @@ theorem loop_terminates_limited (cfg : Cfg) (sym lw : Nat) (line : List Sec)
 
 /-- The loop terminates within the model's fuel when every cluster leaves room for the wrap
 symbol. -/
-theorem loop_terminates_fits (cfg : Cfg) (sym lw : Nat) (line : List Sec)
+theorem loop_terminates_fits (fx : Fixes) (cfg : Cfg) (sym lw : Nat) (line : List Sec)
     (hf : Fits cfg lw line) :
-    ∃ r, loop cfg sym lw (fuelFor cfg lw line) (initSt line) = some r := by
+    ∃ r, loop fx cfg sym lw (fuelFor cfg lw line) (initSt line) = some r := by
   apply loop_some_of_measure mu (fun st => Fits cfg lw st.stack)
   · intro st st' hp h
-    exact ⟨fits_step hp h, mu_step_fits hp h⟩
+    exact ⟨fits_step hp h, mu_step_fits (Or.inr hp) h⟩
   · exact hf
+  · have := mu_init_lt_fuel cfg lw line
+    omega
+
+/-- With the progress repair the loop always terminates within the model's fuel. -/
+theorem loop_terminates_forced (fx : Fixes) (cfg : Cfg) (sym lw : Nat) (line : List Sec)
+    (hf : fx.forceProgress = true) :
+    ∃ r, loop fx cfg sym lw (fuelFor cfg lw line) (initSt line) = some r := by
+  apply loop_some_of_measure mu (fun _ => True)
+  · intro st st' _ h
+    exact ⟨trivial, mu_step_fits (Or.inl hf) h⟩
+  · trivial
   · have := mu_init_lt_fuel cfg lw line
     omega
 
@@ -148,42 +198,47 @@ theorem loop_terminates_fits (cfg : Cfg) (sym lw : Nat) (line : List Sec)
 /-- A state at the start of a row whose next cluster does not leave room for the wrap symbol,
 with no line limit: the iteration emits a row holding only the wrap symbol and returns to the
 same stack. -/
-structure Stuck (cfg : Cfg) (lw : Nat) (st : St) : Prop where
+structure Stuck (fx : Fixes) (cfg : Cfg) (lw : Nat) (st : St) : Prop where
+  unfixed : fx.forceProgress = false
   unlimited : effMax cfg lw = 0
   len0 : st.len = 0
   curr0 : st.curr = []
   top : ∃ style g gs rest, st.stack = (style, g :: gs) :: rest ∧ lw < g.w + cfg.leftSym.w ∧
         lw ≤ gsWidth (g :: gs) ∧
-        ¬ (gsWidth (g :: gs) = lw ∧ (rest = [] ∨ isLoneNl rest = true))
+        ¬ (gsWidth (g :: gs) = lw ∧ PerfectRest fx rest)
 
-theorem stuck_step {cfg : Cfg} {sym lw : Nat} {st : St} (h : Stuck cfg lw st) :
-    ∃ row, step cfg sym lw st = .next { st with result := st.result ++ [row] } := by
-  obtain ⟨hu, h0, hc, style, g, gs, rest, hs, hwide, hge, hnf⟩ := h
+theorem stuck_step {fx : Fixes} {cfg : Cfg} {sym lw : Nat} {st : St} (h : Stuck fx cfg lw st) :
+    ∃ row, step fx cfg sym lw st = .next { st with result := st.result ++ [row] } := by
+  obtain ⟨hfx, hu, h0, hc, style, g, gs, rest, hs, hwide, hge, hnf⟩ := h
   unfold step
   rw [hs]
   simp only [hu, limitReached, h0, Nat.zero_add]
   have h1 : ¬ gsWidth (g :: gs) < lw := by omega
   have h2 : ¬ (gsWidth (g :: gs) = lw ∧ rest = []) := fun ⟨a, b⟩ => hnf ⟨a, Or.inl b⟩
-  have h3 : ¬ (gsWidth (g :: gs) = lw ∧ isLoneNl rest = true) := fun ⟨a, b⟩ => hnf ⟨a, Or.inr b⟩
-  simp only [Nat.lt_irrefl, decide_false, Bool.false_and, Bool.false_eq_true, if_false, h1, h2, h3]
+  have h3 : ¬ (gsWidth (g :: gs) = lw ∧ isLoneNl rest = true) := fun ⟨a, b⟩ => hnf ⟨a, Or.inr (Or.inl b)⟩
+  have h4 : ¬ (gsWidth (g :: gs) = lw ∧ fx.zwPerfectFit = true ∧ allZeroWidth rest = true) :=
+    fun ⟨a, b⟩ => hnf ⟨a, Or.inr (Or.inr b)⟩
+  simp only [Nat.lt_irrefl, decide_false, Bool.false_and, Bool.false_eq_true, if_false, h1, h2, h3, h4]
+  have hwl : widthLeftF fx cfg lw 0 (g :: gs) < g.w := by
+    unfold widthLeftF
+    simp [hfx]
+    omega
   split
   · refine ⟨st.curr ++ [(sym, [cfg.leftSym])], ?_⟩
     congr 1
     cases st; simp_all
-  · rename_i hw
-    have hwl : (gsWidth (g :: gs) - (gsWidth (g :: gs) - lw)) - cfg.leftSym.w < g.w := by omega
-    rw [takeFit_stuck _ g gs hwl]
+  · rw [takeFit_stuck _ g gs hwl]
     refine ⟨st.curr ++ [(style, []), (sym, [cfg.leftSym])], ?_⟩
     congr 1
     cases st; simp_all
 
-theorem stuck_preserved {cfg : Cfg} {lw : Nat} {st : St} (row : Row) (h : Stuck cfg lw st) :
-    Stuck cfg lw { st with result := st.result ++ [row] } :=
-  ⟨h.unlimited, h.len0, h.curr0, h.top⟩
+theorem stuck_preserved {fx : Fixes} {cfg : Cfg} {lw : Nat} {st : St} (row : Row) (h : Stuck fx cfg lw st) :
+    Stuck fx cfg lw { st with result := st.result ++ [row] } :=
+  ⟨h.unfixed, h.unlimited, h.len0, h.curr0, h.top⟩
 
 /-- From a stuck state the loop never returns, whatever the fuel. -/
-theorem stuck_never_terminates {cfg : Cfg} {sym lw : Nat} :
-    ∀ (fuel : Nat) (st : St), Stuck cfg lw st → loop cfg sym lw fuel st = none := by
+theorem stuck_never_terminates {fx : Fixes} {cfg : Cfg} {sym lw : Nat} :
+    ∀ (fuel : Nat) (st : St), Stuck fx cfg lw st → loop fx cfg sym lw fuel st = none := by
   intro fuel
   induction fuel with
   | zero => intro st _; rfl
